@@ -257,7 +257,14 @@ func c11ClientSender(c *fw.Ctx, cs c11Case) {
 			}
 		}
 	}()
-	wg.Wait()
+	// senders that do not come back are C16's and C19's matter; here the history just cannot be judged
+	sendersDone := make(chan struct{})
+	go func() { wg.Wait(); close(sendersDone) }()
+	if !fw.WaitBeats(sendersDone, 60000) {
+		close(stopRenew)
+		c.Inconclusive("senders are still blocked 60000 heartbeats after they started")
+		return
+	}
 	close(stopRenew)
 	<-renewDone
 	<-renew2Done
